@@ -158,11 +158,10 @@ func getShardBetweenExprRouteResult(rule router.Rule, n *ast.BetweenExpr) ([]int
 
 	if n.Not {
 		if start > last {
-			start, last = last, start
-			start = adjustShardIndex(rangeShard, rightValue, start)
-		} else {
-			start = adjustShardIndex(rangeShard, leftValue, start)
+			// left bound above right bound: BETWEEN matches no row, so NOT BETWEEN matches every row
+			return rule.GetSubTableIndexes(), nil
 		}
+		start = adjustShardIndex(rangeShard, leftValue, start)
 
 		l1 := makeList(rule.GetFirstTableIndex(), start+1)
 		l2 := makeList(last, rule.GetLastTableIndex()+1)
